@@ -144,6 +144,16 @@ class Str:
         return 'Str(%r)' % (self.py() if self.concrete() else self.c,)
 
 
+class CapStr(Str):
+    """A String whose capacity matters (created by String::with_capacity and handed to an API that
+    writes at most `capacity` bytes)."""
+    __slots__ = ('cap',)
+
+    def __init__(self, chars, cap):
+        Str.__init__(self, chars)
+        self.cap = cap
+
+
 class SChoice:
     """A string that is one of finitely many Str, selected by mutually exclusive guards."""
     __slots__ = ('alts',)
